@@ -76,12 +76,14 @@ def patch(
             # get module or try to import it if not loaded yet
             module = sys.modules.get(module_name)
             if not module:
+                loaded_before = set(sys.modules)
                 module = importlib.import_module(module_name)
-                # it was imported while the targets above are mocked, so every name it binds them to is a mock,
-                # listed as a target or not: on exit point them all at the originals
-                for name, var in list(module.__dict__.items()):
-                    if id(var) in replaced:
-                        stack.callback(setattr, module, name, replaced[id(var)])
+                # it, and every module it imported in turn, was loaded while the targets above are mocked, so every
+                # name they bind them to is a mock, listed as a target or not: on exit point them all at the originals
+                for loaded in [sys.modules.get(m) for m in sorted(set(sys.modules) - loaded_before)]:
+                    for name, var in list(getattr(loaded, "__dict__", {}).items()):
+                        if id(var) in replaced:
+                            stack.callback(setattr, loaded, name, replaced[id(var)])
             fn = module.__dict__.get(fn_name)
             assert fn, f"No module var {im}"
 
